@@ -182,7 +182,7 @@ def summarize(rec, spec, cap, scripts, extra):
          "rets": rec["rets"], "errors": rec["errors"], "deadlock": rec["deadlock"], "all_returned": rec["all_returned"],
          "dups": rec["dups"], "lock_balanced": rec["lock_balanced"], "strong": rec["strong"], "weak": rec["weak"],
          "cap_now": rec["cap"], "steps": rec["steps"], "unmapped": rec["unmapped"],
-         "lock_leaked": rec["lock_leaked"], "not_fresh": rec["not_fresh"]}
+         "lock_leaked": rec["lock_leaked"], "not_fresh": rec["not_fresh"], "dups_any_epoch": rec["dups_any_epoch"]}
     d.update(extra)
     return d
 
@@ -611,6 +611,12 @@ def oracle(ctx):
                 ctx.count("latent_race_uninitialised_singleton_class")
             else:
                 ctx.violation("two different live objects for one key: %r" % (r["dups"],), case, {"rets": r["rets"]})
+        elif r["dups_any_epoch"] and r["spec"] != "single0":
+            # full-strength reading (identity also across cache_clear): reported through the KNOWN mechanism (D-C18-clear)
+            ctx.count("threaded_runs_with_two_live_objects_across_cache_clear")
+            if ctx.hist["threaded_runs_with_two_live_objects_across_cache_clear"] <= 3:
+                ctx.violation("two different live objects for one key, the requests being separated by a cache_clear: %r" % (r["dups_any_epoch"],),
+                              dict(case, cross_clear=True, has_clear=any(o[0] == "clear" for sc in r["scripts"] for o in sc)), None)
         if len(ctx.samples) < 3 and r["policy"] == "random" and nontriv:
             ctx.sample({"spec": r["spec"], "cap": r["cap"], "scripts": r["scripts"], "schedule": r["schedule"][:40], "returns": r["rets"][:8]})
     for msg in getattr(ctx, "_c18_shape", [])[:1]:
@@ -763,7 +769,11 @@ def direct_identity(ctx, tz):
     ctx.case(("retention",))
     alive = [r() is not None for r in refs]
     if len(names) >= 10 and alive != [False, False] + [True] * 8:
-        ctx.violation("strong cache does not retain exactly the 8 most recent zones: %r" % alive, {"op": "retention"}, None)
+        # the property does not fix the eviction policy or the size: not a violation (the LRU order is tied by fact.run)
+        ctx.count("retention_differs_from_lru_8_not_required")
+        ctx.note("strong cache does not retain exactly the 8 most recent zones: %r (not required by the property)" % alive)
+    else:
+        ctx.count("retention_is_lru_8")
     # cache_clear only affects retention (full-strength statement of the property)
     for n in names[:4]:
         a = tz.gettz(n)
@@ -859,7 +869,9 @@ def zone_laws(ctx, tz, env):
 
 
 KNOWN = {
-    "D-C18-clear": lambda v: v["case"].get("op") == "cache_clear_identity",
+    "D-C18-clear": lambda v: v["case"].get("op") == "cache_clear_identity"
+                             or (v["case"].get("mode") == "threads" and v["case"].get("cross_clear") is True
+                                 and v["case"].get("has_clear") is True and v["case"].get("spec") == "gettz"),
     "D-C18-nocache-vendored": lambda v: v["case"].get("op") == "fresh_vendored",
 }
 
